@@ -95,6 +95,7 @@ func dfs(name string, procc *runtime.Script, sPath *searchPath, p *param) error 
 	if err := sPath.Push(name); err != nil {
 		return errchain.NewErr(p.name, p.namePos, err.Error())
 	}
+	defer sPath.Pop()
 
 	if _, ok := p.retMap[name]; ok {
 		return nil
@@ -102,7 +103,10 @@ func dfs(name string, procc *runtime.Script, sPath *searchPath, p *param) error 
 
 	for _, expr := range procc.CallRef {
 		cName, err := getParamRefScript(expr)
-		p.namePos = expr.NamePos
+		if name == p.name {
+			// a cycle is reported at the root script's own use() call
+			p.namePos = expr.NamePos
+		}
 		if err != nil {
 			return err
 		}
@@ -111,17 +115,17 @@ func dfs(name string, procc *runtime.Script, sPath *searchPath, p *param) error 
 			if err, ok := p.allErrNg[cName]; ok {
 				if e, ok := err.(*errchain.PlError); ok {
 					return e.Copy().ChainAppend(
-						procc.Name, p.namePos)
+						procc.Name, expr.NamePos)
 				}
 				return err
 			}
-			return errchain.NewErr(procc.Name, p.namePos,
+			return errchain.NewErr(procc.Name, expr.NamePos,
 				fmt.Sprintf("script %s not found", cName))
 		} else {
 			expr.PrivateData = cNg
 			if err := dfs(cName, cNg, sPath, p); err != nil {
 				if e, ok := err.(*errchain.PlError); ok {
-					return e.Copy().ChainAppend(procc.Name, p.namePos)
+					return e.Copy().ChainAppend(procc.Name, expr.NamePos)
 				}
 				return err
 			}
@@ -129,7 +133,6 @@ func dfs(name string, procc *runtime.Script, sPath *searchPath, p *param) error 
 	}
 
 	p.retMap[name] = procc
-	sPath.Pop()
 
 	return nil
 }
